@@ -19,6 +19,9 @@
 //!   (get_cell_mut, set_cell/set value/remove_cell apart from the addressed cell, styling
 //!   calls, save) keep every existing cell with its value; inserts keep the multiset of
 //!   values (what removals, move, copy and cleanup delete is C07's business).
+//! * `cleanup()` removes invisible garbage only: a cell that has a value, a formula or a
+//!   hyperlink (the library's own `is_visually_empty` criteria besides visible style) is
+//!   still there afterwards, unchanged.
 //! On save (`Save` ops and once at the end): every row that holds a cell of E is in
 //! `get_row_dimensions()`; the bytes written by `write_writer`, read back with the
 //! library's own `read_reader`, contain every cell of E that has a non-empty value, at
@@ -64,7 +67,7 @@ pub struct Case {
 fn op_kinds() -> Vec<(u32, AKind)> {
     vec![
         (2, AKind::GetCellMut),
-        (2, AKind::SetCell),
+        (3, AKind::SetCell),
         (2, AKind::SetValue),
         (3, AKind::RemoveCell),
         (1, AKind::SetStyle),
@@ -339,6 +342,25 @@ fn scan(ws: &Worksheet) -> BTreeMap<Pos, String> {
     ws.get_collection_to_hashmap().values().map(|c| (own(c), c.get_value().to_string())).collect()
 }
 
+/// Cells that are content by the library's own definition (`cleanup` removes "invisible
+/// garbage"): a value, a formula or a hyperlink. own coordinate -> (value, formula, url)
+fn scan_content(ws: &Worksheet) -> BTreeMap<Pos, (String, String, Option<String>)> {
+    ws.get_collection_to_hashmap()
+        .values()
+        .filter(|c| !c.get_value().is_empty() || !c.get_formula().is_empty() || c.get_hyperlink().is_some())
+        .map(|c| {
+            (
+                own(c),
+                (
+                    c.get_value().to_string(),
+                    c.get_formula().to_string(),
+                    c.get_hyperlink().map(|h| h.get_url().to_string()),
+                ),
+            )
+        })
+        .collect()
+}
+
 /// "No cell is lost": operations that by their documented meaning delete nothing must keep
 /// every existing cell (with its value); inserts must keep the multiset of values.
 /// Removals, move, copy and cleanup delete by design and are C07's business.
@@ -435,6 +457,7 @@ fn check(case: &Case, obs: &mut Obs) -> Verdict {
             tags: &mut tags,
             steered: 0,
             bulk_limit: 64,
+            from_other_variants: true,
         };
         let op = match resolve(aop, &mut cx) {
             Resolved::Skip(why) => {
@@ -446,6 +469,7 @@ fn check(case: &Case, obs: &mut Obs) -> Verdict {
         let kind = op.kind_name();
         trace.push(format!("#{} {:?}", i, op));
         let before = scan(book.get_sheet(&0).unwrap());
+        let content_before = if matches!(op, COp::Cleanup { .. }) { scan_content(book.get_sheet(&0).unwrap()) } else { BTreeMap::new() };
         if op == COp::Save {
             if let Some(v) = judge(guard(|| save_check(&book)), "save", &trace) {
                 return v;
@@ -481,6 +505,45 @@ fn check(case: &Case, obs: &mut Obs) -> Verdict {
         let after = scan(book.get_sheet(&0).unwrap());
         if let Some(v) = judge(Ok(content_check(&op, &before, &after)), "content", &trace) {
             return v;
+        }
+        if matches!(op, COp::Cleanup { .. }) {
+            // cleanup removes invisible garbage only: a cell with a value, a formula or a
+            // hyperlink is never garbage
+            let content_after = scan_content(book.get_sheet(&0).unwrap());
+            for (pos, c) in &content_before {
+                if content_after.get(pos) != Some(c) {
+                    let what = if !c.0.is_empty() {
+                        "valued-cell"
+                    } else if !c.1.is_empty() {
+                        "formula-cell"
+                    } else {
+                        "hyperlink-only-cell"
+                    };
+                    return Verdict::fail(
+                        format!("content/cleanup-removed-{}", what),
+                        format!(
+                            "cleanup() changed cell {} (value {:?}, formula {:?}, hyperlink {:?}) into {:?} ; history: {}",
+                            show(*pos),
+                            c.0,
+                            c.1,
+                            c.2,
+                            content_after.get(pos),
+                            trace.join("; ")
+                        ),
+                    );
+                }
+            }
+            if !content_before.is_empty() {
+                obs.class("cleanup-with-content");
+            }
+            if content_before.values().any(|c| c.0.is_empty()) {
+                obs.class("cleanup-with-valueless-content-cell");
+            }
+        }
+        match &op {
+            COp::Insert { call, .. } | COp::Remove { call, .. } if call.from_other => obs.class(format!("from-other-sheet:{}", kind)),
+            COp::SetCell { content, .. } => obs.class(format!("set-cell:{:?}", content)),
+            _ => {}
         }
     }
     trace.push("final save".into());
